@@ -79,6 +79,19 @@ CHECKS = {
    note='Trusted: clang front end; correctly rounded host printf and C literal parsing; union same-size type punning. '
         'Not decided: the run-time value the C compiler assigns to the literal.',
    ref='DESIGN.md 4/C07'),
+ 'C11': dict(
+   technique='type-based undefined-behaviour rules over the typed AST of every extracted statement template and reached w2c2_base.h function (signed arithmetic, shift counts, division guards, float-to-int guards, typed memory dereference); compile witness (gcc and clang syntax+type checking of one TU of all templates in GNU C89..C17); C lexing of emitted string literals',
+   text='About 650 statement templates (every opcode row of the dispatch table in both formatting modes, memory/atomic variants, '
+        'control-flow scripts) are extracted by partial evaluation of the emitter and parsed against the current w2c2_base.h: every '
+        '+ - * negation has unsigned or floating computation type (or constant / 16-bit operands), every shift count is masked below '
+        'the width of the shifted value and << acts on unsigned values, every integer / and % is in the else-position of a zero-divisor '
+        'guard and (signed) a MIN/-1 guard, every float-to-int conversion sits under a range guard, no runtime access function '
+        'dereferences linear memory through a typed pointer. The TU of all templates is accepted by gcc and clang as GNU C89 '
+        '(thorough: C99/C11/C17) with implicit declarations and pointer/int mismatches as errors. Import and export names with quotes, '
+        'backslashes, control and non-ASCII bytes are emitted as C string literals that lex back to the same bytes.',
+   note='Same results across compilers/-O levels is argued from absence of these UB classes plus single-assignment template shape; the C '
+        'compilers themselves are trusted. Exact trap boundaries of float-to-int are decided in C02. Debug-mode #line paths and __asm__ labels are not covered.',
+   ref='DESIGN.md 4/C11'),
  'C12': dict(
    technique='partial evaluation of every I/O import (both ABI generations) with symbolic guest memory: affine guest load/store offsets vs witx layouts, native-call argument provenance, table evaluation against host macros read at run time, seek/restore pairing with errno havoc',
    text='ABI signatures of all imports are compared with the witx lowering (mismatches of the nine imports named by the property are '
